@@ -382,7 +382,9 @@ async fn run_async(script: &SockScript) -> SockLog {
                         b[1] = 1;
                         (w.from, b)
                     }),
-                    _ => newest.map(|w| (w.from, raw_header(4, w.hdr.as_ref().unwrap().conn_id, 7777, 0, 0, &[]))),
+                    // (the id a SYN must carry to produce the live connection's receive key at `to`: one below
+                    // the id its peer sends data with - a network duplicate or replay of the original SYN)
+                    _ => newest.map(|w| (w.from, raw_header(4, w.hdr.as_ref().unwrap().conn_id.wrapping_sub(1), 7777, 0, 0, &[]))),
                 };
                 if let Some((from, b)) = bytes_from {
                     net.inject_now(from, sock_addr(*to), b);
